@@ -281,13 +281,14 @@ def c20_corrupt(kw):
         # the solver for a factor of two fewer paths - measured)
         c = TOKEN_ALPHABET[choose(kw["ci"], len(TOKEN_ALPHABET))]
     stream = EditStream(doc, len(doc) + 1, kind_e, p, c)
-    kind, res = outcome(lambda: run_reader(fmt, stream, opts))
+    route = kw["route"]
+    kind, res = outcome(lambda: run_reader(fmt, stream, opts, route))
     # dimensions are compared only when the edit lies outside the DIMENSIONS statements
     safe = True
     for m in re.finditer(r"DIMENSIONS[^;]*;", doc):
         if not (kw["hi"] <= m.start() or kw["lo"] > m.end()):
             safe = False
-    return judge(fmt, kind, res, stream, di, check_dims=safe)
+    return judge(fmt, kind, res, stream, di, check_dims=safe, route=route)
 
 
 @with_signature(SPEC)
@@ -344,11 +345,16 @@ def harnesses(tier):
                     # quick tier: of the further NEXUS documents only the interleaved matrix body
                     a, b = doc.index("MATRIX") + 6, doc.index(";\nEND;\nBEGIN SETS")
                     for lo in range(a, b, 6):
-                        co.append(dict(fmt=fmt, doc=di, lo=lo, hi=min(lo + 6, b + 1), family="corrupt", L=0))
+                        co.append(dict(fmt=fmt, doc=di, lo=lo, hi=min(lo + 6, b + 1), family="corrupt", L=0, route=0))
                 continue
             cstep = 6 if fmt in ("newick", "nexus") else 8
             for lo in range(0, len(doc), cstep):
-                co.append(dict(fmt=fmt, doc=di, lo=lo, hi=min(lo + cstep, len(doc)), family="corrupt", L=0))
+                co.append(dict(fmt=fmt, doc=di, lo=lo, hi=min(lo + cstep, len(doc)), family="corrupt", L=0, route=0))
+            if fmt in ("newick", "nexus") and "(" in doc:
+                # the tree statements also through the one-tree-at-a-time iterator
+                a = 0 if fmt == "newick" else doc.index("BEGIN TREES")
+                for lo in range(a, len(doc), 12):
+                    co.append(dict(fmt=fmt, doc=di, lo=lo, hi=min(lo + 12, len(doc)), family="corrupt", L=0, route=1))
     common = dict(assumptions=["streams: pure-Python read(1)/readline/iteration over the text, '' at end of stream",
                                "internal error = AttributeError/IndexError/TypeError/KeyError/RecursionError/AssertionError/NameError/"
                                "ZeroDivisionError/StopIteration/BlockTerminatedException whose innermost library frame is in dendropy"],
